@@ -80,6 +80,7 @@ fn one(rep: &mut Reporter, seed: u64, thorough: bool) {
     let local_nid = *local.public_key();
     let nid_index: BTreeMap<NodeId, usize> = remotes.iter().enumerate().map(|(i, r)| (r.nid, i)).collect();
     let mut private_refs_stored = false;
+    let mut inventory_reported = false;
     // repositories that entered the node's inventory while they were public
     let mut was_public_in_inventory: Vec<bool> = repos.iter().map(|r| r.private.is_none()).collect();
     svc::drain(&mut node);
@@ -146,7 +147,7 @@ fn one(rep: &mut Reporter, seed: u64, thorough: bool) {
                     let now = *node.service.clock();
                     node.service.initialize(now).ok();
                     for (k, r) in repos.iter().enumerate() {
-                        was_public_in_inventory[k] = r.private.is_none();
+                        was_public_in_inventory[k] |= r.private.is_none();
                     }
                     json!({"restart(initialize)": true})
                 }
@@ -227,12 +228,17 @@ fn one(rep: &mut Reporter, seed: u64, thorough: bool) {
                                     if repo.private.is_some() {
                                         let k = repos.iter().position(|x| x.rid == *rid).unwrap();
                                         let sig = if was_public_in_inventory[k] {
-                                            "C11/private-repository-in-own-inventory-announcement/made-private-after-it-entered-the-inventory"
+                                            "C11/private-repository-in-own-inventory-announcement/made-private-after-it-was-announced-as-public"
                                         } else {
                                             "C11/private-repository-in-own-inventory-announcement"
                                         };
-                                        rep.violation(sig, json!({"to_peer": pi, "repo": rid.to_string(), "log": log}));
-                                        return;
+                                        if !inventory_reported {
+                                            rep.violation(sig, json!({"to_peer": pi, "repo": rid.to_string(), "log": log}));
+                                        }
+                                        inventory_reported = true;
+                                        if !was_public_in_inventory[k] {
+                                            return;
+                                        }
                                     }
                                 }
                             }
